@@ -138,11 +138,14 @@ static ucontext_t g_sched_ctx;
 static long g_countdown = 0;
 static int g_in_window = 0;
 static uint32_t g_epoch = 1; /* synchronisation epoch of the conflict detector */
+static uint64_t g_nested_multi = 0; /* nested regions run with a team > 1 in this begin/end */
 static unsigned int g_pool_mxcsr = 0x1F80;
 static unsigned short g_pool_cwd = 0x037F;
 static int g_active = 0; /* between begin/end */
 static uint64_t g_window_salt = 0;
-static void *g_stacks[MAX_TEAM];
+#define MAX_INNER 8
+static void *g_stacks[MAX_TEAM + MAX_INNER];
+static int g_nest_depth = 0;
 static int g_nstacks = 0;
 
 /* schedule trace: segments (tid, nsteps) */
@@ -557,6 +560,7 @@ void simgomp_conflict(int i, uint64_t *fn_off, uint64_t *count, uint64_t *ww, ui
     *rw = g_conf[i].rw;
 }
 uint64_t simgomp_shadow_overflow(void) { return g_sh_overflow; }
+uint64_t simgomp_nested_multi(void);
 
 static uint64_t record_region(void (*fn)(void *), int n) {
     for (int i = 0; i < g_nregions; i++)
@@ -602,6 +606,74 @@ static void free_ws(Team *t) {
 static void parallel_impl(void (*fn)(void *), void *data, unsigned num_threads,
                           WorkShare *preset) {
     g_st.regions++;
+    int inner_n = (int)((g_cfg.flags >> 8) & 0xff);
+    if (g_cur != NULL && g_team != NULL && g_team->th != NULL && !g_err && inner_n > 1 &&
+        g_nest_depth == 0 && !g_replaying) {
+        /* nested parallelism switched on by the environment (OMP_MAX_ACTIVE_LEVELS >= 2,
+         * OMP_NUM_THREADS=a,b): the inner region gets a real team.  The encountering outer
+         * thread runs the inner team's scheduler on its own stack; the other outer threads do
+         * not advance meanwhile (one legal serialisation of the outer level), the inner
+         * threads interleave under the same strategy and access pre-emption. */
+        if (inner_n > MAX_INNER)
+            inner_n = MAX_INNER;
+        if (num_threads && (int)num_threads < inner_n)
+            inner_n = (int)num_threads;
+        Team *t2 = (Team *)calloc(1, sizeof(Team));
+        SimThread *th2 = (SimThread *)calloc((size_t)inner_n, sizeof(SimThread));
+        team_init_common(t2, inner_n, fn, data);
+        t2->th = th2;
+        t2->parent = g_team;
+        if (preset) {
+            t2->ws[0] = *preset;
+            t2->ws[0].seq = 1;
+        }
+        for (int i = 0; i < inner_n; i++)
+            t2->perm[i] = i;
+        t2->special = (int)rnd_below((uint64_t)inner_n);
+        t2->rr_next = (int)rnd_below((uint64_t)inner_n);
+        t2->window = g_in_window;
+        for (int i = 0; i < inner_n; i++) {
+            SimThread *th = &th2[i];
+            th->tid = i;
+            th->state = ST_RUNNABLE;
+            th->ws_seq = preset ? 1 : 0;
+            th->cur_ws = preset ? &t2->ws[0] : NULL;
+            th->team = t2;
+            th->team_top = t2;
+            th->locks_held = 0;
+            th->stack = get_stack(MAX_TEAM + i);
+            getcontext(&th->ctx);
+            th->ctx.uc_stack.ss_sp = (char *)th->stack + 4096;
+            th->ctx.uc_stack.ss_size = STACK_BYTES;
+            th->ctx.uc_link = NULL;
+            uintptr_t p = (uintptr_t)th;
+            makecontext(&th->ctx, (void (*)(void))tramp, 2, (unsigned)(p >> 32),
+                        (unsigned)(p & 0xffffffffu));
+        }
+        g_st.nested++;
+        g_st.regions_multi++;
+        g_nested_multi++;
+        Team *save_team = g_team;
+        SimThread *save_cur = g_cur;
+        ucontext_t save_sched = g_sched_ctx;
+        int save_win = g_in_window;
+        long save_cd = g_countdown;
+        g_nest_depth++;
+        g_team = t2;
+        g_epoch++;
+        run_team(t2);
+        g_epoch++;
+        g_nest_depth--;
+        g_sched_ctx = save_sched;
+        g_team = save_team;
+        g_cur = save_cur;
+        g_in_window = save_win;
+        g_countdown = save_cd;
+        free_ws(t2);
+        free(th2);
+        free(t2);
+        return;
+    }
     if (g_cur != NULL || g_team != NULL || g_err) {
         /* nested region (or poisoned simulator): team of one, inline */
         Team nt;
@@ -1468,8 +1540,11 @@ void simgomp_begin(uint64_t seed, const SimCfg *cfg) {
     g_in_window = 0;
     g_nconf = 0;
     g_sh_overflow = 0;
+    g_nested_multi = 0;
+    g_nest_depth = 0;
     g_epoch++;
 }
+uint64_t simgomp_nested_multi(void) { return g_nested_multi; }
 void simgomp_set_replay(const Seg *segs, uint64_t n, const int32_t *chunks, uint64_t nc) {
     g_rp = segs;
     g_nrp = n;
